@@ -74,6 +74,7 @@ var Props = map[string]PropRunner{
 	"C06": func(r *Run) {
 		p := e0Profile("C06", "C06")
 		p.CodecSwarm = true
+		p.Weights[opCrash], p.Weights[opRestart], p.Weights[opPublish] = 5, 7, 12 // replicas also run on log objects rebuilt by every loader
 		p.Weights[opByz] = 14
 		p.Weights[opPolicy] = 8
 		p.Weights[opDenied] = 5
@@ -98,6 +99,7 @@ var Props = map[string]PropRunner{
 		p.CodecSwarm = true
 		p.Weights[opPublish] = 10
 		p.Weights[opRawEntry] = 14
+		p.Weights[opReader] = 6 // reader applications with the same, another or no link key (keyed worlds only)
 		RunE0(r, p)
 	},
 	"C15": func(r *Run) {
